@@ -77,6 +77,8 @@ impl MetadataSpec {
         mask: Option<T>,
         ordering: Ordering,
     ) -> T {
+        #[cfg(mmtk_verif)]
+        crate::util::verif::rt::yield_point(crate::util::verif::rt::site::META_LOAD);
         match self {
             MetadataSpec::OnSide(metadata_spec) => {
                 metadata_spec.load_atomic(object.to_raw_address(), ordering)
@@ -128,6 +130,8 @@ impl MetadataSpec {
         mask: Option<T>,
         ordering: Ordering,
     ) {
+        #[cfg(mmtk_verif)]
+        crate::util::verif::rt::yield_point(crate::util::verif::rt::site::META_STORE);
         match self {
             MetadataSpec::OnSide(metadata_spec) => {
                 metadata_spec.store_atomic(object.to_raw_address(), val, ordering);
@@ -163,6 +167,8 @@ impl MetadataSpec {
         success_order: Ordering,
         failure_order: Ordering,
     ) -> std::result::Result<T, T> {
+        #[cfg(mmtk_verif)]
+        crate::util::verif::rt::yield_point(crate::util::verif::rt::site::META_CAS);
         match self {
             MetadataSpec::OnSide(metadata_spec) => metadata_spec.compare_exchange_atomic(
                 object.to_raw_address(),
@@ -200,6 +206,8 @@ impl MetadataSpec {
         val: T,
         order: Ordering,
     ) -> T {
+        #[cfg(mmtk_verif)]
+        crate::util::verif::rt::yield_point(crate::util::verif::rt::site::META_FETCH);
         match self {
             MetadataSpec::OnSide(metadata_spec) => {
                 metadata_spec.fetch_add_atomic(object.to_raw_address(), val, order)
@@ -225,6 +233,8 @@ impl MetadataSpec {
         val: T,
         order: Ordering,
     ) -> T {
+        #[cfg(mmtk_verif)]
+        crate::util::verif::rt::yield_point(crate::util::verif::rt::site::META_FETCH);
         match self {
             MetadataSpec::OnSide(metadata_spec) => {
                 metadata_spec.fetch_sub_atomic(object.to_raw_address(), val, order)
@@ -250,6 +260,8 @@ impl MetadataSpec {
         val: T,
         order: Ordering,
     ) -> T {
+        #[cfg(mmtk_verif)]
+        crate::util::verif::rt::yield_point(crate::util::verif::rt::site::META_FETCH);
         match self {
             MetadataSpec::OnSide(metadata_spec) => {
                 metadata_spec.fetch_and_atomic(object.to_raw_address(), val, order)
@@ -275,6 +287,8 @@ impl MetadataSpec {
         val: T,
         order: Ordering,
     ) -> T {
+        #[cfg(mmtk_verif)]
+        crate::util::verif::rt::yield_point(crate::util::verif::rt::site::META_FETCH);
         match self {
             MetadataSpec::OnSide(metadata_spec) => {
                 metadata_spec.fetch_or_atomic(object.to_raw_address(), val, order)
@@ -306,6 +320,8 @@ impl MetadataSpec {
         fetch_order: Ordering,
         f: F,
     ) -> std::result::Result<T, T> {
+        #[cfg(mmtk_verif)]
+        crate::util::verif::rt::yield_point(crate::util::verif::rt::site::META_FETCH);
         match self {
             MetadataSpec::OnSide(metadata_spec) => metadata_spec.fetch_update_atomic(
                 object.to_raw_address(),
